@@ -390,13 +390,15 @@ class AllocCheck:
         if focus in cache:
             return cache[focus]
         cex = None
-        ev, d, viol, _ = bounded_states("quick", seed, focus, want_first=True)
-        if not viol:
-            ev, d, viol, _ = bounded_states("thorough", seed, focus, want_first=True)
+        ev, d, viol, _ = bounded_states("quick", seed, focus)
+        if not self.filter_prop(viol):
+            ev, d, viol, _ = bounded_states("thorough", seed, focus)
+        viol = self.filter_prop(viol)  # only inputs that violate a clause of THIS property
         if viol:
             cex = viol[0]
         else:
             ev2, d2, v2 = random_histories("quick", seed, n_hist=200, steps=150)
+            v2 = self.filter_hist(v2)
             if v2:
                 cex = v2[0]
         cache[focus] = cex
